@@ -120,12 +120,15 @@ RangeToken* RangeTokenMap::getRange(const XMLCh* const keyword,
         return 0;
 
     RangeTokenElemMap* elemMap = fTokenRegistry->get(keyword);
+
+    // The token slots of the entry are filled in on demand by whichever
+    // thread asks first; read them under the same lock that guards the write.
+    XMLMutexLock lockInit(&fMutex);
     RangeToken* rangeTok = elemMap->getRangeToken(complement);
 
     if (!rangeTok)
     {
         XERCES_VERIF_POINT(LazyEnter, elemMap, VerifHooks::SiteRangeLookup, 0);
-        XMLMutexLock lockInit(&fMutex);
 
         // make sure that it was not created while we were locked
         rangeTok = elemMap->getRangeToken(complement);
